@@ -84,9 +84,11 @@ def run():
     expect_counterexample(t, "SimpsonStack{StaleLeftEstimate} violates OwnEstimate", "SimpsonStack",
                           sbase.replace("StaleLeftEstimate = FALSE", "StaleLeftEstimate = TRUE"))
 
-    bbase = open(os.path.join(vlib.SPEC, "MC_Bisection.cfg")).read().replace("PROPERTY Terminates", "")
-    expect_counterexample(t, "Bisection{FirstMidpointOutside} evaluates outside the bracket", "MC_Bisection",
+    bbase = open(os.path.join(vlib.SPEC, "MC_Bisect.cfg")).read().replace("PROPERTY Terminates", "")
+    expect_counterexample(t, "Bisect{FirstMidpointOutside} evaluates outside the bracket", "MC_Bisect",
                           bbase.replace("Defects = {}", 'Defects = {"FirstMidpointOutside"}'))
+    expect_counterexample(t, "Bisect{StopWhenMidpointSmall} returns a non-root", "MC_Bisect",
+                          bbase.replace("Defects = {}", 'Defects = {"StopWhenMidpointSmall"}'))
     brbase = open(os.path.join(vlib.SPEC, "MC_Brent_any.cfg")).read().replace("PROPERTY Terminates", "").replace("W = 24", "W = 12")
     expect_counterexample(t, "Brent{NoRangeSafeguard} evaluates outside the bracket", "MC_Brent",
                           brbase.replace("Defects = {}", 'Defects = {"NoRangeSafeguard"}'))
@@ -97,10 +99,12 @@ def run():
     import tempfile
     tmp = tempfile.mkdtemp(prefix="tlaps", dir=os.path.join(vlib.VERIF, "work"))
     try:
-        shutil.copy(os.path.join(vlib.SPEC, "BrentLemmas.tla"), tmp)
-        p = vlib.sh(["timeout", "300", "tlapm", "--threads", "4", "BrentLemmas.tla"], cwd=tmp, check=False, timeout=400)
-        t.check("TLAPS proves BrentLemmas (dead inverse-quadratic branch, points inside the bracket)", "All 3 obligations proved" in p.stdout,
-                p.stdout.strip().splitlines()[-1][:80] if p.stdout.strip() else "")
+        for mod, what in (("BrentLemmas", "dead inverse-quadratic branch, points inside the bracket"),
+                          ("BisectLemmas", "midpoint inside, halving bound, the pinned first midpoint outside")):
+            shutil.copy(os.path.join(vlib.SPEC, mod + ".tla"), tmp)
+            p = vlib.sh(["timeout", "300", "tlapm", "--threads", "4", mod + ".tla"], cwd=tmp, check=False, timeout=400)
+            t.check("TLAPS proves %s (%s)" % (mod, what), "All 3 obligations proved" in p.stdout,
+                    p.stdout.strip().splitlines()[-1][:80] if p.stdout.strip() else "")
     finally:
         shutil.rmtree(tmp, ignore_errors=True)
     # ---- binding: design-level traces of brent() and integrate_simpson() ---------------------------------
@@ -111,7 +115,7 @@ def run():
     bc = [c for c in c07.seeded(ctx0, rng0, 90) if c["solver"] == "brent"][:25]
     for k, c in enumerate(bc):
         c["id"] = k + 1
-    keys = ("id", "solver", "a", "b", "tol", "evals", "n", "ret", "x")
+    keys = ("id", "solver", "a", "b", "tol", "n_max", "evals", "n", "ret", "x")
     brows = [{k: r[k] for k in keys} for r in fncommon.observe(ctx0, "bracket", bc, "stb", nproc=1)]
     fncommon.validate(ctx0, brows, "Trace_Brent", "stb", nshards=1)
     t.check("clean brent() abscissa traces explained bit for bit by Brent over doubles", not ctx0.drift and len(brows) == 25, "%d runs" % len(brows))
@@ -127,6 +131,19 @@ def run():
     ctx0.drift = []
     fncommon.validate(ctx0, b2, "Trace_Brent", "stb", nshards=1)
     t.check("one brent evaluation removed -> that run is rejected (drift)", [d["case"] for d in ctx0.drift] == [brows[j]["id"]])
+    ic = [c for c in c07.seeded(ctx0, rng0, 90) if c["solver"] == "bisection"][:25]
+    for k, c in enumerate(ic):
+        c["id"] = k + 1
+    irows = [{k: r[k] for k in keys} for r in fncommon.observe(ctx0, "bracket", ic, "sti", nproc=1)]
+    ctx0.drift = []
+    fncommon.validate(ctx0, irows, "Trace_Bisect", "sti", nshards=1)
+    t.check("clean bisection() abscissa traces explained bit for bit by Bisect over doubles", not ctx0.drift and len(irows) == 25, "%d runs" % len(irows))
+    j = next(k for k, r in enumerate(irows) if r["n"] >= 6 and r["ret"] == "ok")
+    b2 = copy.deepcopy(irows)
+    b2[j]["x"] = bump(b2[j]["x"], 1)
+    ctx0.drift = []
+    fncommon.validate(ctx0, b2, "Trace_Bisect", "sti", nshards=1)
+    t.check("returned bisection midpoint changed by one ulp -> that run is rejected (drift)", [d["case"] for d in ctx0.drift] == [irows[j]["id"]])
     sc = [c for c in c09.gen(ctx0, rng0, 400) if c["routine"] == "simpson" and not c["cx"] and c["n"] == 40][:15]
     for k, c in enumerate(sc):
         c["id"] = k + 1
@@ -147,6 +164,39 @@ def run():
     ctx0.drift = []
     fncommon.validate(ctx0, s2, "Trace_Simpson", "sts", nshards=1, env={"VH_NMAX": 40})
     t.check("two simpson evaluations swapped -> that run is rejected (drift)", [d["case"] for d in ctx0.drift] == [srows[j]["id"]])
+    gc = [c for c in c09.gen(ctx0, rng0, 400) if c["routine"] in ("hermite", "romberg") and not c["cx"]][:30]
+    for k, c in enumerate(gc):
+        c["id"] = k + 1
+    grows = [{k: r[k] for k in keys} for r in fncommon.observe(ctx0, "quad", gc, "stg", nproc=1)]
+    grows = [r for r in grows if r["calls"] <= len(r["evals"])]
+    tab = os.path.join(vlib.VERIF, "work", "selftest-tables2.ndjson")
+    vlib.vh("tables", tab)
+    henv = {"VH_FAMILY": "hermite", "VH_TABLES": tab}
+    hrows = [r for r in grows if r["routine"] == "hermite"]
+    rrows = [r for r in grows if r["routine"] == "romberg"]
+    ctx0.drift = []
+    fncommon.validate(ctx0, hrows, "Trace_Gauss", "stg", nshards=1, env=henv)
+    fncommon.validate(ctx0, rrows, "Trace_Romberg", "stg", nshards=1)
+    t.check("clean integrate_hermite() / integrate_fixed() traces explained through GaussStop + tables / RombergP", not ctx0.drift and len(hrows) >= 5 and len(rrows) >= 5,
+            "%d + %d runs" % (len(hrows), len(rrows)))
+    j = next(k for k, r in enumerate(hrows) if r["calls"] >= 6 and r["ret"] == "ok")
+    h2 = copy.deepcopy(hrows)
+    h2[j]["evals"][4][0] = bump(h2[j]["evals"][4][0], 1)
+    ctx0.drift = []
+    fncommon.validate(ctx0, h2, "Trace_Gauss", "stg", nshards=1, env=henv)
+    t.check("one Gauss-Hermite abscissa changed by one ulp (a changed table digit) -> that run is rejected (drift)", [d["case"] for d in ctx0.drift] == [hrows[j]["id"]])
+    h2 = copy.deepcopy(hrows)
+    h2[j]["evals"] = h2[j]["evals"][:-1]
+    h2[j]["calls"] -= 1
+    ctx0.drift = []
+    fncommon.validate(ctx0, h2, "Trace_Gauss", "stg", nshards=1, env=henv)
+    t.check("Gauss-Hermite run cut short (stops one evaluation early) -> that run is rejected (drift)", [d["case"] for d in ctx0.drift] == [hrows[j]["id"]])
+    j = next(k for k, r in enumerate(rrows) if r["calls"] >= 5 and r["ret"] == "ok")
+    r2 = copy.deepcopy(rrows)
+    r2[j]["val"][0] = bump(r2[j]["val"][0], 1)
+    ctx0.drift = []
+    fncommon.validate(ctx0, r2, "Trace_Romberg", "stg", nshards=1)
+    t.check("returned Romberg value changed by one ulp -> that run is rejected (drift)", [d["case"] for d in ctx0.drift] == [rrows[j]["id"]])
     # ---- binding: IVP contract trace -----------------------------------------------------------------
     ctx = vlib.Ctx("SELFTEST", "quick", 1, "other")
     rng = random.Random(7)
